@@ -26,6 +26,8 @@ type nilAnalysis struct {
 	callSites map[*ssa.Function][]nilCallSite
 	changed   bool
 	busy      map[ssa.Value]bool
+	forMap    ssa.Value // while classifying the key of a state-map lookup: the map that is indexed
+	strictMap bool      // two state maps are two snapshots: a key ranged from one is not known to be in the other
 }
 
 type nilCallSite struct {
@@ -238,6 +240,9 @@ func (na *nilAnalysis) keyReg(fn *ssa.Function, k ssa.Value, at ssa.Instruction)
 	for _, a := range alts {
 		switch {
 		case a.Op == "rangekey" && len(a.Args) == 1 && a.Args[0].V != nil && isStateMapType(a.Args[0].V.Type()):
+			if na.strictMap && na.forMap != nil && !sameMap(p, a.Args[0], p.T(na.forMap)) {
+				return false
+			}
 		case (a.Op == "rangeval" || a.Op == "index") && len(a.Args) > 0 && a.Args[0].V != nil && na.listReg(a.Args[0].V, 0):
 		case p.IsCall(a, "(*mysql.Node).Host"):
 		case ResultOf(a, 0) != nil && p.IsCall(ResultOf(a, 0), fnGetMaster, fnEnsure):
@@ -293,7 +298,18 @@ func (na *nilAnalysis) Findings() (findings []NilFinding, examined int) {
 					if ok, _ := fa.Gated(use, self); ok {
 						continue
 					}
-					if na.keyReg(fn, key, use) {
+					na.forMap = nil
+					if what == "state-map" {
+						switch x := in.(type) {
+						case *ssa.Lookup:
+							na.forMap = x.X
+						case *ssa.Extract:
+							na.forMap = x.Tuple.(*ssa.Lookup).X
+						}
+					}
+					reg := na.keyReg(fn, key, use)
+					na.forMap = nil
+					if reg {
 						continue
 					}
 					_, path := fa.Gated(use, na.guardFor(p.T(key)))
@@ -641,4 +657,15 @@ func (na *nilAnalysis) escapes(v ssa.Value) []nilEscape {
 	}
 	rec(v, 0)
 	return out
+}
+
+// sameMap: two terms denote the same map value (same SSA value, same variable, or the same parameter).
+func sameMap(p *Prog, a, b *Term) bool {
+	if sameValue(a, b) {
+		return true
+	}
+	if cellOf(a) != nil && cellOf(a) == cellOf(b) {
+		return true
+	}
+	return a.Op == "param" && b.Op == "param" && a.Name == b.Name && a.V == b.V
 }
